@@ -74,3 +74,8 @@ claim("C20", "model_checking",
       "fingerprint completeness for Python-level state; numpy/scipy C-level state trusted",
       "explicit-state exploration of call histories (depth 3) on the implementation with state fingerprinting and an isolation oracle",
       "DESIGN.md section 4 C20")
+claim("C03", "model_checking",
+      "For every (topology, kinds) class of the listed levels the canonical description is analysed once and every element of the explored transformation subgroup (node renamings, element renamings, listing orders, reversal subsets with negated source values, reference nodes; see the evidence for the exact product per level) is applied and analysed by the real code; potential differences, currents, powers and port impedances (network solver), phasor results (component circuits), state-space transfer functions at three frequencies for every source/output pair and transient waveforms must be the image of the canonical results under the same transformation.",
+      "numpy accuracy; name palettes whose sort order interleaves element kinds; quick tier uses sub-products at 3 nodes/3 branches and above (complete products in the thorough tier)",
+      "explicit exploration of a transformation group on the implementation with a two-run (metamorphic) oracle",
+      "DESIGN.md section 4 C03")
